@@ -71,6 +71,37 @@ func genCases(c *Check, n int, salt int, opt func(i int) *gen.Opt) []*progCase {
 	return out
 }
 
+// wideCases: n programs, each the parallel composition of k independent generated programs
+// (30..60 top-level processes, dozens of functions, many processes active at once).
+func wideCases(c *Check, n, k int, salt int, opt func(i int) *gen.Opt) []*progCase {
+	parts := genCases(c, n*k, salt, opt)
+	var out []*progCase
+	for i := 0; i < n; i++ {
+		var ps []*vast.Program
+		contr := false
+		for _, pc := range parts[i*k : (i+1)*k] {
+			ps = append(ps, pc.P)
+			contr = contr || pc.Contr
+		}
+		p := mut.Compose(ps)
+		if v := typing.Check(p); v.Kind != typing.Accept {
+			fmt.Fprintf(os.Stderr, "HARNESS BUG: composed program rejected by R1: %s\n%s\n", v, p.Text())
+			os.Exit(2)
+		}
+		m := sem.New(p)
+		if !m.Lazy(400000 * k) {
+			fmt.Fprintf(os.Stderr, "HARNESS BUG: composed program diverges in R2\n%s\n", p.Text())
+			os.Exit(2)
+		}
+		if ok, why := m.FinalOK(); !ok {
+			fmt.Fprintf(os.Stderr, "HARNESS BUG: reference run of a composed program does not complete: %s\n%s\n", why, p.Text())
+			os.Exit(2)
+		}
+		out = append(out, &progCase{ID: fmt.Sprintf("w%s", parts[i*k].ID), P: p, Text: p.Text(), Contr: contr, LazyMS: sem.MS(m.Prints), LazySteps: m.Steps, Source: "G1-composed", Feat: p.Feat})
+	}
+	return out
+}
+
 // corpusTexts: the example files plus every raw string literal of the repo's tests.
 func corpusTexts() map[string]string {
 	out := map[string]string{}
@@ -475,13 +506,22 @@ func checkC03() int {
 	// a forward, with explicit self, so that np is comparable and a callee is often the target
 	// of a forward already parked on its control channel when it takes its first step
 	fwdCases := genCases(c, c.pick(120, 700), 33, func(i int) *gen.Opt {
-		return &gen.Opt{MaxSplit: 0, Pol: 2, Alias: 30, ExplicitSelf: 60, ExplicitProv: 15, Exec: 10, Print: 30, TopMax: 2, Fuel: 3, Tail: 45, CutFwd: 70, MainMode: []vast.Mode{vast.Lin, vast.Rep, vast.Aff, vast.Lin}[i%4], Mixed: i%5 == 0}
+		return &gen.Opt{MaxSplit: 0, Pol: 2, Alias: 30, ExplicitSelf: 60, ExplicitProv: 15, Exec: 10, Print: 30, TopMax: 2, Fuel: 3, Tail: 45, CutFwd: 70, MainMode: []vast.Mode{vast.Lin, vast.Rep, vast.Aff, vast.Lin}[i%4], Mixed: i%3 == 0}
 	})
 	outs = append(outs, runMatrix(c, pool, fwdCases, nCfg, func(pc *progCase) []string {
 		if pc.Contr {
 			return []string{"async", "sync"}
 		}
 		return []string{"np", "async", "np", "sync", "np"}
+	})...)
+	// wide programs: parallel compositions of 12 independent programs (30..60 top-level
+	// processes, many calls of different functions at the same instant)
+	wide := wideCases(c, c.pick(16, 120), 12, 34, nil)
+	outs = append(outs, runMatrix(c, pool, wide, nCfg, func(pc *progCase) []string {
+		if pc.Contr {
+			return []string{"async", "sync"}
+		}
+		return []string{"async", "sync", "np"}
 	})...)
 	// long-running programs (busy for much longer than the heartbeat interval), through the
 	// real entry point and through the exact-quiescence entry
@@ -499,14 +539,19 @@ func checkC03() int {
 		r     runOut
 	}
 	byProg := map[string][]obs{}
+	diedBy := map[string][]runOut{}
 	fpsBy := map[string]map[uint64]bool{}
 	allFps := map[uint64]bool{}
 	dups, dupSame := 0, 0
 	for _, r := range outs {
 		c.Evaluations++
 		o := r.o
-		if o.Died() || !accepted(o) {
-			if o.Res == nil && !o.Died() {
+		if o.Died() {
+			diedBy[r.pc.ID] = append(diedBy[r.pc.ID], r)
+			continue
+		}
+		if !accepted(o) {
+			if o.Res == nil {
 				c.Inconc("watchdog")
 			}
 			continue
@@ -551,6 +596,20 @@ func checkC03() int {
 	multi := 0
 	for id, os := range byProg {
 		first := os[0]
+		// a run that dies with a runtime error while other runs of the same program complete:
+		// the outcome depends on the mode / schedule (the death itself is C01's business too)
+		if ds := diedBy[id]; len(ds) > 0 {
+			x := ds[0]
+			w := witnessOf(x)
+			w["other_config"] = first.cfg.String()
+			w["other_multiset"] = first.ms
+			ma, mb := first.cfg.Mode, x.cfg.Mode
+			if ma > mb {
+				ma, mb = mb, ma
+			}
+			c.Violation(fmt.Sprintf("nondeterminism: a %s run dies with a runtime error while a %s run of the same program completes (contraction=%v)", x.cfg.Mode, first.cfg.Mode, x.pc.Contr), w)
+			continue
+		}
 		for _, x := range os[1:] {
 			if x.ms != first.ms || x.clean != first.clean {
 				w := witnessOf(x.r)
